@@ -10,8 +10,13 @@ for id in $IDS; do
   if ! git -C /repo apply --check /verif/$d/patch.diff 2>/dev/null; then echo "$id: patch does not apply"; continue; fi
   git -C /repo apply /verif/$d/patch.diff
   T0=$(date +%s)
+  # the evidence file and the replay directory describe the unchanged tree: keep them out of the seeded run
+  cp evidence/$P.json /verif/.evidence_keep.$P 2>/dev/null
+  rm -rf /verif/.replay_keep.$P; cp -r replay/$P /verif/.replay_keep.$P 2>/dev/null
   OUT=$(bin/check $P --tier quick 2>&1); RC=$?
   git -C /repo checkout -- . ; git -C /repo clean -fdq spyne 2>/dev/null
+  [ -f /verif/.evidence_keep.$P ] && mv /verif/.evidence_keep.$P evidence/$P.json
+  rm -rf replay/$P; [ -d /verif/.replay_keep.$P ] && mv /verif/.replay_keep.$P replay/$P
   NV=$(echo "$OUT" | grep -c '^VIOLATION')
   FIRST=$(echo "$OUT" | grep '^VIOLATION' | head -2 | tr '\n' ';')
   UND=$(echo "$OUT" | grep -c '^UNDECIDED')
